@@ -37,7 +37,9 @@ class FullEngine(Engine):
         if isinstance(v, VInt):
             return v.term != 0
         if isinstance(v, VCallback):
-            return v.term != NONE                      # A7: a callback object is truthy
+            # `if cb:` / `cb and ...`: None is falsy; the truth value of a callable object is unconstrained (a callable may define
+            # __bool__ / __len__), so code that confuses "not given" with "falsy" is told apart from code that tests `is None`
+            return z3.And(v.term != NONE, T.truthy(v.term))
         if isinstance(v, VRef):
             if v.term.eq(NONE):
                 return z3.BoolVal(False)
